@@ -45,6 +45,7 @@ int main(int argc, char** argv)
         int cap = 1 + std::min(20, it / 3);
         int n = std::max(seq ? 1 : np, g.range(1, cap + (seq ? 0 : np)));
         vh::Trip t = gen_sys(g, n, extra);
+        if (extra && it0 % 4 == 0) for (auto& v : t.v) v *= std::ldexp(1.0, 40);      // entries around 1e12: the measure is scale free
         double thetas[] = { 0.0, 0.25, 0.5, 0.75, 1.0, 0.125 }; double theta = thetas[g.below(6)];
         int type = g.below(2);      // 0 classical, 1 symmetric
         int nv = type == 0 ? g.range(1, 3) : 1;
